@@ -78,6 +78,8 @@ ACCEPTOR = {
     'collision-then-data': [('P', [('RQ',)]), ('U', 'AC', ()), ('U', 'RLRQ', ()), ('P', [('RLRQ',)]), ('P', [('RLRP',)]),
                             ('P', [('MSG', 1, 0, [1])]), ('FIN',)],
     'collision-then-garbage': [('P', [('RQ',)]), ('U', 'AC', ()), ('U', 'RLRQ', ()), ('P', [('RLRQ',), ('RLRP',), ('UNK',)]), ('FIN',)],
+    # the peer has asked for release; the local user still sends data before it answers (allowed in Sta8: AR-7)
+    'data-before-release-response': [('P', [('RQ',)]), ('U', 'AC', ()), ('P', [('MSG', 1, 0, [1]), ('RLRQ',)]), ('G', 2), ('U', 'RLRP', ()), ('FIN',)],
     'many-pipelined': [('P', [('RQ',)]), ('U', 'AC', ()), ('P', [('MSG', 1, 0, [1])] * 24), ('P', [('UNK',)]), ('FIN',)],
     'release-mid-message': [('P', [('RQ',)]), ('U', 'AC', ()), ('P', [('MSGA', 1, 2, [1, 1, 1], 1)]), ('U', 'RLRQ', ()),
                             ('P', [('MSGB',), ('RLRP',)])],
@@ -102,6 +104,7 @@ REQUESTOR = {
     'abort-then-peer-talks': [('U', 'RQ', ()), ('P', [('AC',)]), ('U', 'AB', (0, 0)), ('P', [('MSG', 1, 0, [1]), ('UNK0',), ('AB', [2, 0])]), ('FIN',)],
     'release-mid-message': [('U', 'RQ', ()), ('P', [('AC',)]), ('G', 1), ('P', [('MSGA', 2, 1, [1, 1, 1], 2)]), ('U', 'RLRQ', ()),
                             ('P', [('MSGB',), ('RLRP',)])],
+    'data-before-release-response': [('U', 'RQ', ()), ('P', [('AC',)]), ('G', 1), ('P', [('MSG', 1, 0, [1]), ('RLRQ',)]), ('G', 1), ('U', 'RLRP', ()), ('FIN',)],
     'find': [('U', 'RQ', ()), ('P', [('AC',)]), ('G', 2), ('P', [('MSG', 1, 1, [1, 1]), ('MSG', 1, 1, [2]), ('MSG', 1, 0, [1])]),
              ('U', 'RLRQ', ()), ('P', [('RLRP',)])],
 }
@@ -254,6 +257,18 @@ def play(script, req, cuts=(), dribble=False, waiting=False, fin_at=None, stop_s
                     continue
                 if not settle():
                     break
+            elif op[0] == 'UECHO':
+                # the local user accepts the association it was indicated the way the library's acceptor does: the
+                # titles of the indicated request are echoed in the response
+                from .ulrun import user_pdu
+                ind = [i for i in run.indications if type(i).__name__ == 'AAssociateRqPDU']
+                if ind:
+                    ac = user_pdu('AC')
+                    ac.called_ae_title, ac.calling_ae_title = ind[-1].called_ae_title, ind[-1].calling_ae_title
+                    run.user_put('AC', (), obj=ac)
+                    out.echoed = True
+                    if not settle():
+                        break
             elif op[0] == 'G':
                 ids.setdefault('f', 0)
                 fids = list(range(ids['f'] + 1, ids['f'] + 1 + op[1]))
